@@ -73,6 +73,30 @@ CLAIMED = {
         note=E3A_NOTE,
         engine="E3-A",
     ),
+    "C14": dict(
+        category="exploration",
+        technique="bounded exhaustive enumeration of rendered inputs (operator-instance chains, adversarial operands x positions x followers, branch/handler/let layouts) against the structure they were rendered from, in-process through join_impl's parser",
+        text="Every chain over all 70 operator instances up to the bound, every adversarial operand at every operand position followed by every operator, and every small multi-branch layout is rendered to tokens and parsed by join_impl; the parsed structure must equal the rendered one. Exhaustive within the bound.",
+        design_ref="DESIGN.md §4 C14",
+        note="Trusted: syn/proc-macro2 (lexing, the independent premise check), my table of operator spellings (transcribed from the README), join_impl's public chain-inspection API (a change of that API is a machinery error, exit 2).",
+        engine="E1",
+    ),
+    "C15": dict(
+        category="exploration",
+        technique="bounded exhaustive enumeration of all symbol sequences over the DSL alphabet through join_impl's parse + generate entry points, outcome classification + conservative reference recogniser",
+        text="Every sequence over the DSL symbol alphabets up to the bound is expanded in-process under catch_unwind with a termination watchdog; the outcome must be valid output, a syn error or a documented configuration rejection; structurally invalid inputs (E1-E7) must be rejected, inputs fitting the confident grammar must expand.",
+        design_ref="DESIGN.md §4 C15",
+        note="Trusted: syn (output validity = parses as syn::Expr), the reference recogniser (conservative: answers 'unsure' outside the confident grammar). Inputs outside the alphabet are not covered.",
+        engine="E1",
+    ),
+    "C20": dict(
+        category="model_checking",
+        technique="exhaustive enumeration of expansion histories up to depth 3 in one process + stateless model checking of two concurrent expansions under the baton scheduler at the verif_hooks yield points (preemption-bounded)",
+        text="All expansion histories up to the bound over a feature-covering corpus are replayed in one process and every output compared with the fresh-process output; every ordered pair of core units is expanded by two threads under every interleaving of the hook yield points within the preemption bound.",
+        design_ref="DESIGN.md §4 C20",
+        note=E3T_NOTE + " Interleavings are exhaustive only at hook granularity (hook commit 47e2b50, feature verif_hooks).",
+        engine="E1+E3-T",
+    ),
     "C18": dict(
         category="fault_enumeration",
         technique="exhaustive fault injection (every single panic position, crossed with failure subsets) x all schedules under the controlled thread scheduler",
@@ -112,9 +136,9 @@ def main():
         "setup_cmd": "./check setup",
         "hooks": {
             "guard": "verif_hooks",
-            "enable": "cargo feature `verif_hooks` of join_impl (harness crates depend on join_impl with features=[\"verif_hooks\"]); no hook is committed yet — every current check runs on the unmodified crate",
+            "enable": "cargo feature `verif_hooks` of join_impl: the C20 interleaving harness (work/e1_hooks) depends on join_impl with features=[\"verif_hooks\"]; every other check builds the crate with the feature off",
             "baseline_off_cmd": "cd /repo && cargo test --workspace --no-fail-fast --offline --lib --tests",
-            "source_commits": [],
+            "source_commits": ["47e2b50"],
             "add_only": True,
         },
         "engines": [
@@ -122,6 +146,8 @@ def main():
              "kind_free_text": "compile-and-run differential explorer: exhaustively enumerated DSL programs x input tables, real macros vs in-binary reference"},
             {"name": "E3-T", "path": "vlib/e3t.py + rt/vsched + rt/vstd", "serves_properties": sorted(k for k, v in CLAIMED.items() if "E3-T" in v["engine"]),
              "kind_free_text": "stateless model checker for the thread-spawning expansions: baton scheduler over real OS threads, DFS over all orders of visible operations, re-execution from choice prefixes"},
+            {"name": "E1", "path": "vlib/e1.py + rt/e1", "serves_properties": sorted(k for k, v in CLAIMED.items() if "E1" in v["engine"]),
+             "kind_free_text": "in-process expansion explorer: join_impl's parse + generate entry points on exhaustively enumerated token streams / histories, 16 workers, catch_unwind + watchdog"},
             {"name": "E3-A", "path": "vlib/e3a.py + rt/vexec + rt/vtokio", "serves_properties": sorted(k for k, v in CLAIMED.items() if "E3-A" in v["engine"]),
              "kind_free_text": "explicit-state model checker for the async expansions: deterministic executor, harness-owned gate futures and tokio::spawn shim, DFS over all decision sequences with canonical-state pruning (cross-checked unpruned)"},
         ],
